@@ -80,3 +80,46 @@ def _mk(o: int) -> None:
 
 for _o in REGULAR:
     _mk(_o)
+
+
+# ------------------------------------------------------------------------------------------ Badi
+def _mk_badi() -> None:
+    o = 18
+    calc = calc_of(o)
+    lo, hi = calc._min_year, calc._max_year
+
+    @contract(H + "add_months", "C09", name="[BADI] _add_months yields a valid date n months away (19 months per year), OverflowError outside the year range")
+    def _(c):
+        c.arg("calc", Const(lambda: calc_of(o))).arg("y", Int(lo, hi)).arg("m", Int(1, 19)).arg("d", Int(1, 24)).arg("n", Int(-BIG, BIG))
+        c.setup = _split_setup(o)
+        idx = lambda a: a.m - 1 + a.n  # noqa: E731
+        ty = lambda a: a.y + idx(a) // 19  # noqa: E731
+        tm = lambda a: idx(a) % 19 + 1  # noqa: E731
+        inr = lambda a: And(ty(a) >= lo, ty(a) <= hi)  # noqa: E731
+        ayyam = lambda a: And(a.m == 18, a.d > 19)  # noqa: E731
+
+        def post(a, r):
+            if r is None:
+                return True
+            y2, m2, d2, dim2, miy2 = r
+            return And(m2 >= 1, m2 <= miy2, d2 >= 1, d2 <= dim2, y2 >= lo, y2 <= hi, Implies(Not(ayyam(a)), And(inr(a), y2 == ty(a), m2 == tm(a), d2 == a.d)))
+
+        c.returns(post)
+        c.raises(OverflowError, when=lambda a: Or(Not(inr(a)), ayyam(a)))
+        c.timeout_s = 60
+
+    @contract(H + "set_year", "C09", name="[BADI] _set_year keeps month and day (Ayyam-i-Ha days clamped), valid date in the target year")
+    def _(c):
+        c.arg("calc", Const(lambda: calc_of(o))).arg("y", Int(lo, hi)).arg("m", Int(1, 19)).arg("d", Int(1, 24)).arg("y2", Int(lo, hi))
+        c.setup = _split_setup(o)
+
+        def post(a, r):
+            if r is None:
+                return True
+            y2, m2, d2, dim2, miy2 = r
+            return And(y2 == a.y2, m2 == a.m, d2 == pymin(a.d, dim2), d2 >= 1, m2 <= miy2)
+
+        c.returns(post)
+
+
+_mk_badi()
